@@ -304,6 +304,92 @@ pub fn run_history(id: usize, env: &Env, init_a: &Tree, init_b: &Tree, ops: &[Op
     HistResult { case_line, impl_line, fails, runs, conflicts: nconf }
 }
 
+
+/// C07 (a): the parse step is ENUMERATED against the real `Archive::load` (archive.rs compiled in unchanged):
+/// for an archive written by the binary - every truncation point, bit flips, garbage, JSON of the wrong shape,
+/// other format versions, the archive of another / the swapped pair, only .bak/.tmp present - `load` must return
+/// None, and Some for the untouched file. Returns (cases, failures).
+pub fn archive_fault_enum(env: &Env, r: &mut Rng, thorough: bool) -> (u64, Vec<String>) {
+    use crate::cli::archive::{root_pair_hash, Archive};
+    let mut fails = vec![];
+    let mut n = 0u64;
+    let _ = std::fs::remove_dir_all(&env.a);
+    let _ = std::fs::remove_dir_all(&env.b);
+    let _ = std::fs::remove_dir_all(&env.home);
+    for d in [&env.a, &env.b, &env.home] {
+        std::fs::create_dir_all(d).unwrap();
+    }
+    std::fs::write(format!("{}/x", env.a), b"one").unwrap();
+    std::fs::create_dir_all(format!("{}/d", env.b)).unwrap();
+    std::fs::write(format!("{}/d/y", env.b), b"two").unwrap();
+    let _ = env.bisync(&[], &env.a, &env.b, &[]);
+    let Some(f) = env.archive_main() else { return (0, vec!["0 C07 no archive was written by a completed run".into()]) };
+    let good = std::fs::read(&f).unwrap();
+    let pair = root_pair_hash(std::path::Path::new(&env.a), std::path::Path::new(&env.b));
+    let swapped = root_pair_hash(std::path::Path::new(&env.b), std::path::Path::new(&env.a));
+    let probe = format!("{}/probe.json", env.home);
+    let mut check = |bytes: Option<&[u8]>, expect_some: bool, what: &str, fails: &mut Vec<String>| {
+        let _ = std::fs::remove_file(&probe);
+        if let Some(b) = bytes {
+            std::fs::write(&probe, b).unwrap();
+        }
+        let got = crate::util::catch(std::panic::AssertUnwindSafe(|| Archive::load(std::path::Path::new(&probe), &pair).is_some()));
+        match got {
+            Ok(g) if g == expect_some => {}
+            Ok(g) => fails.push(format!("0 C07 Archive::load returned {} for {}", if g { "Some (trusted)" } else { "None" }, what)),
+            Err(m) => fails.push(format!("0 C07 Archive::load panicked for {}: {}", what, m)),
+        }
+    };
+    check(Some(&good), true, "the untouched archive", &mut fails); n += 1;
+    check(None, false, "an absent file", &mut fails); n += 1;
+    check(Some(b""), false, "a zero-length file", &mut fails); n += 1;
+    for cut in 0..good.len() {
+        check(Some(&good[..cut]), false, &format!("the archive truncated to {} of {} bytes", cut, good.len()), &mut fails);
+        n += 1;
+    }
+    let flips = if thorough { good.len() * 8 } else { 400 };
+    for i in 0..flips {
+        let bit = if thorough { i } else { r.below((good.len() * 8) as u64) as usize };
+        let mut b = good.clone();
+        b[bit / 8] ^= 1 << (bit % 8);
+        // a flipped bit inside a string/number may leave a valid archive of the SAME pair and version: then Some is right
+        let still_valid = serde_json::from_slice::<serde_json::Value>(&b).ok().map(|v| v.get("format_version").and_then(|x| x.as_u64()) == Some(1) && v.get("root_pair_hash").and_then(|x| x.as_str()) == Some(pair.as_str()) && v.get("epoch").map(|x| x.is_u64()).unwrap_or(false) && v.get("host_id").map(|x| x.is_string()).unwrap_or(false) && v.get("entries").map(|x| x.is_object()).unwrap_or(false)).unwrap_or(false);
+        if !still_valid {
+            check(Some(&b), false, &format!("the archive with bit {} flipped", bit), &mut fails);
+            n += 1;
+        }
+    }
+    for _ in 0..50 {
+        let k = r.below(200) as usize;
+        let g = r.bytes(k);
+        check(Some(&g), false, "random garbage", &mut fails);
+        n += 1;
+    }
+    let text = String::from_utf8_lossy(&good).into_owned();
+    for (what, body) in [
+        ("a JSON array", "[1,2,3]".to_string()),
+        ("a JSON string", "\"archive\"".to_string()),
+        ("an empty JSON object", "{}".to_string()),
+        ("a missing entries field", text.replacen("\"entries\"", "\"entriez\"", 1)),
+        ("a mistyped epoch", text.replacen("\"epoch\": 1", "\"epoch\": \"one\"", 1)),
+        ("format_version 0", text.replacen("\"format_version\": 1", "\"format_version\": 0", 1)),
+        ("format_version 2", text.replacen("\"format_version\": 1", "\"format_version\": 2", 1)),
+        ("format_version 4294967295", text.replacen("\"format_version\": 1", "\"format_version\": 4294967295", 1)),
+        ("the archive of the swapped pair", text.replacen(&pair, &swapped, 1)),
+        ("the archive of another pair", text.replacen(&pair, &"0".repeat(64), 1)),
+    ] {
+        check(Some(body.as_bytes()), false, what, &mut fails);
+        n += 1;
+    }
+    // only .bak / .tmp present: the load path itself is absent
+    std::fs::write(format!("{}.bak", probe), &good).unwrap();
+    std::fs::write(format!("{}.tmp", probe), &good).unwrap();
+    check(None, false, "only .bak and .tmp present", &mut fails); n += 1;
+    let _ = std::fs::remove_file(format!("{}.bak", probe));
+    let _ = std::fs::remove_file(format!("{}.tmp", probe));
+    (n, fails)
+}
+
 pub fn parse_case(line: &str) -> (Tree, Tree, Vec<Op>) {
     let mut a = Tree::new();
     let mut b = Tree::new();
@@ -414,6 +500,14 @@ pub fn main(a: Args) -> i32 {
     };
     let mut nfail = 0u64;
     let mut distinct = std::collections::HashSet::new();
+    if a.replay.is_none() {
+        let (n, fails) = archive_fault_enum(&env, &mut r, a.tier == "thorough");
+        out.add("archive_load_fault_cases", n);
+        for f in fails {
+            nfail += 1;
+            out.line("specfail.txt", &f);
+        }
+    }
     for (id, (ia, ib, ops, class)) in hists.iter().enumerate() {
         let res = run_history(id, &env, ia, ib, ops, &mut r, id % 4 == 0);
         out.line("cases.txt", &res.case_line);
